@@ -119,7 +119,7 @@ func (s *State) enterLoop(b *ssa.BasicBlock, n int, phis []*ssa.Phi) {
 		s.havocCall(fmt.Sprintf("loop %d of %s calls code with unknown effects", n, c.name), c.loopUnkPkgs, c.loopUnkFuncArg)
 	} else {
 		for _, k := range keys {
-			s.havocPrefix(k)
+			s.havocPrefixFramed(k)
 		}
 	}
 	s.inLoop[b] = true
@@ -937,4 +937,73 @@ func fnPkg(fn *ssa.Function) *types.Package {
 		return fn.Object().Pkg()
 	}
 	return nil
+}
+
+// havocPrefixFramed forgets the heap arrays a loop body may write, but keeps -- justified by the frame# obligations
+// of this function -- the contents of every object that existed at function entry and is not in the assigns clause.
+func (s *State) havocPrefixFramed(prefix string) {
+	c := s.c
+	type kv struct{ key, old string }
+	var touched []kv
+	for k, t := range s.heap {
+		if strings.HasPrefix(k, prefix) {
+			touched = append(touched, kv{k, t})
+		}
+	}
+	sort.Slice(touched, func(i, j int) bool { return touched[i].key < touched[j].key })
+	s.havocPrefix(prefix)
+	if !c.frameOn || c.frameAll {
+		return
+	}
+	for _, t := range touched {
+		srt := c.sortOfTerm(t.old)
+		if srt == "" {
+			continue
+		}
+		var kind, kp string
+		switch {
+		case strings.HasPrefix(t.key, "fld|"):
+			kind, kp = "fld", fldPrefixOf(t.key)
+		case strings.HasPrefix(t.key, "elem|"):
+			kind = "elems"
+			kp = t.key
+			if i := strings.IndexAny(t.key[5:], "."); i >= 0 {
+				kp = t.key[:5+i]
+			}
+		case strings.HasPrefix(t.key, "cell|"):
+			kind = "cell"
+			kp = t.key
+			if i := strings.IndexAny(t.key[5:], "."); i >= 0 {
+				kp = t.key[:5+i]
+			}
+		case strings.HasPrefix(t.key, "mapdom|"), strings.HasPrefix(t.key, "mapval|"):
+			kind = "map"
+		default:
+			continue
+		}
+		nr := c.freshConst("hf", srt)
+		s.heap[t.key] = nr
+		r := fmt.Sprintf("r!%d", c.fresh)
+		c.fresh++
+		inFrame := []string{}
+		for _, l := range c.frame {
+			switch {
+			case kind == "fld" && l.kind == "fld" && l.prefix == kp,
+				kind == "elems" && l.kind == "elems" && l.prefix == kp,
+				kind == "cell" && l.kind == "cell" && l.prefix == kp,
+				kind == "map" && l.kind == "map":
+				inFrame = append(inFrame, eq(r, l.ref))
+			}
+		}
+		cond := and(app("<", r, c.entry.alloc), not(or(inFrame...)))
+		s.assume(fmt.Sprintf("(forall ((%s Int)) (! (=> %s (= (select %s %s) (select %s %s))) :pattern ((select %s %s))))", r, cond, nr, r, t.old, r, nr, r))
+	}
+}
+
+// sortOfTerm finds the declared sort of a heap array term (a root constant or a define-fun name).
+func (c *FnCtx) sortOfTerm(name string) string {
+	if s, ok := c.sorts[name]; ok {
+		return s
+	}
+	return ""
 }
